@@ -110,9 +110,40 @@ func foundGetterContract(p *Prog, r *Report, getter, region, key, zero string) {
 	r.check(len(reads) == 1 && reads[0] == region+" "+key, "getter-contract", "getter-contract/"+getter+"/region", c.pos(),
 		getter+" reads exactly "+region+" under "+key, fmt.Sprintf("%s reads %v, expected only %s under %s", getter, reads, region, key))
 	get := "(prefix.Store).Get(" + prefixStore(region) + "," + key + ")"
+	vrs := c.virtualReturns()
+	// single-exit form: `found = b != nil; if found { decode }; return val, found`
+	if len(vrs) == 1 && len(vrs[0].vals) == 2 && vrs[0].cfn == c.fn &&
+		(vrs[0].vals[1] == "("+get+" != nil)" || vrs[0].vals[1] == "(nil != "+get+")") {
+		vr := vrs[0]
+		present := []Atom{A("!(" + get + " == nil)")}
+		c.teq("getter-contract", "return/value", vr.vals[0], phiOf([]*Term{mk("const", "decode("+get+")"), mk("const", zero)}).String(), p.instrPos(vr.at))
+		r.ok("getter-contract", "getter-contract/"+getter+"/return/flag", p.instrPos(vr.at), "found is the presence test of the slot itself")
+		dec := c.calls("k.cdc.MustUnmarshal")
+		if len(dec) != 1 || dec[0].Parent() != c.fn {
+			r.fail("getter-contract", "getter-contract/"+getter+"/returns", c.pos(), fmt.Sprintf("%d decode calls in the single-exit form", len(dec)))
+			return
+		}
+		r.ok("getter-contract", "getter-contract/"+getter+"/returns", c.pos(), "one return: (decoded-or-zero, present)")
+		// decoded only when present, and always when present
+		c.requireCut("getter-contract", "found-implies-present", present, []ssa.Instruction{dec[0]})
+		edges, matched := passEdges(c.ifs, present)
+		always := len(matched) > 0
+		fi := p.info(c.fn)
+		for _, ii := range matched {
+			b := ii.in.Block()
+			for slot, s := range b.Succs {
+				if edges[Edge{b, slot, ii.site}] && fi.blockReachesAvoiding(s, vr.at, []ssa.Instruction{dec[0]}) {
+					always = false
+				}
+			}
+		}
+		r.check(always, "getter-contract", "getter-contract/"+getter+"/present-implies-decoded", p.instrPos(dec[0]),
+			"a present entry is always decoded before the return", "a present entry can be reported found without being decoded")
+		return
+	}
 	n := 0
 	var withTrue []vret
-	for _, vr := range c.virtualReturns() {
+	for _, vr := range vrs {
 		if len(vr.vals) != 2 {
 			continue
 		}
@@ -507,14 +538,19 @@ func runC13(p *Prog, r *Report, tier string) {
 			r.ok("T-eq", "T-eq/InitGenesis/threshold-default", c.pos(), "default threshold is 1")
 		}
 		if flow.given != nil {
-			// the given threshold is tested, or whatever value is about to be stored is
+			// what reaches the store is non-zero: the given threshold was tested, or the value about
+			// to be stored was, or the field is absent (then the default, 1, is what is stored)
 			g := []Atom{A("!(0 == p2.SignatureThreshold.Amount)")}
-			if flow.set != nil {
+			target := flow.given
+			if flow.set != nil && ssa.Instruction(flow.set) != flow.given || flow.viaHelper {
+				// one setter call fed by a selected value: the store itself is the target
+				target = flow.set
+				g = append(g, A("(nil == p2.SignatureThreshold)"))
 				if a := c.args(flow.set); len(a) == 2 {
 					g = append(g, A("!(0 == "+a[1]+".Amount)"))
 				}
 			}
-			c.requireCut("G-cut", "genesis-threshold!=0", g, []ssa.Instruction{flow.given})
+			c.requireCut("G-cut", "genesis-threshold!=0", g, []ssa.Instruction{target})
 		}
 		// no other value is ever stored
 		for _, s := range c.calls("k.SetSignatureThreshold") {
